@@ -60,6 +60,24 @@ class GatewayMonitor:
                 out.append(None)
         return out
 
+    def newly_parked(self, world):
+        """Decoded lines the implementation holds for sleeping nodes beyond what the model holds (this step's additions)."""
+        out = {}
+        for nid, n in self.model.nodes.items():
+            if not n.asleep:
+                continue
+            sensor = world.gw.sensors.get(nid)
+            queue = list(getattr(sensor, "queue", ())) if sensor is not None else []
+            extra = []
+            for text in queue[len(n.held):]:
+                try:
+                    extra.append(decode_line(text if isinstance(text, str) else str(text)))
+                except Malformed:
+                    pass
+            if extra:
+                out[nid] = extra
+        return out
+
     def sync_clock(self, world):
         self.model.epoch = world.epoch
         self.model.utc_offset = world.utc_offset
@@ -84,7 +102,7 @@ class GatewayMonitor:
         exp = None
         if kind == "rx":
             line = obs.eff_line if obs.eff_line is not None else ev[1]
-            exp = self.model.rx(line, [o for o in observed if o is not None])
+            exp = self.model.rx(line, [o for o in observed if o is not None], self.newly_parked(world))
             self.judge_rx(world, ev, obs, exp, observed, viols, asleep_before)
         elif kind == "rx2":
             self.judge_rx2(world, ev, obs, observed, viols)
